@@ -78,6 +78,38 @@ func verifFlightGid() int64 {
 type verifFlightG struct {
 	status string
 	wgWait bool // parked in sync.(*WaitGroup).Wait
+	inSync bool // the innermost frame outside the Go runtime / package sync is a non-driver file of core/syncx
+}
+
+// libWait: blocked inside the synchronisation object under test, by whatever primitive it uses to make a
+// caller wait (a WaitGroup today; a channel, a mutex or a condition variable after a harmless refactoring).
+func (g verifFlightG) libWait() bool {
+	if !g.inSync {
+		return false
+	}
+	switch g.status {
+	case "chan receive", "select", "chan send", "sync.Mutex.Lock", "sync.RWMutex.RLock", "sync.RWMutex.Lock", "sync.Cond.Wait":
+		return true
+	case "semacquire":
+		return g.wgWait
+	}
+	return false
+}
+
+// verifFlightInnermost: does the innermost frame that is neither runtime nor package sync lie in a library
+// file of core/syncx (as opposed to a driver file zz_verif_*)?
+func verifFlightInnermost(stack []byte) bool {
+	for _, ln := range bytes.Split(stack, []byte("\n")) {
+		if len(ln) == 0 || ln[0] != '\t' {
+			continue
+		}
+		if bytes.Contains(ln, []byte("/src/runtime/")) || bytes.Contains(ln, []byte("/src/sync/")) ||
+			bytes.Contains(ln, []byte("/src/internal/")) {
+			continue
+		}
+		return bytes.Contains(ln, []byte("/core/syncx/")) && !bytes.Contains(ln, []byte("zz_verif_"))
+	}
+	return false
 }
 
 // parked: blocked in a primitive of package sync (not in a runtime-internal semaphore such
@@ -121,7 +153,7 @@ func verifFlightSnapshot() map[int64]verifFlightG {
 				}
 				top := blk[nl:]
 				out[id] = verifFlightG{status: st, wgWait: bytes.HasPrefix(top, []byte("\nsync.runtime_Semacquire(")) &&
-					bytes.Contains(top, []byte("\nsync.(*WaitGroup).Wait("))}
+					bytes.Contains(top, []byte("\nsync.(*WaitGroup).Wait(")), inSync: verifFlightInnermost(top)}
 			}
 			return out
 		}
@@ -261,6 +293,8 @@ func (s *verifFlightSched) settle() (gated, parked, hooked []*verifFlightCall) {
 				case g.status == "chan receive" && c.inHook.Load():
 					hooked = append(hooked, c)
 				case g.status == "semacquire" && g.wgWait:
+					parked = append(parked, c)
+				case g.libWait() && !c.inGate.Load() && !c.inHook.Load():
 					parked = append(parked, c)
 				case s.strict && g.parked():
 					parked = append(parked, c)
